@@ -26,9 +26,10 @@ LEVEL = 'exploration'
 COUNTS = {'quick': 260, 'thorough': 6000}
 BUDGET = {'quick': 110, 'thorough': 1500}
 TIMEOUT = 240
-SHRINK_LISTS = [['hops'], ['files']]
+SHRINK_LISTS = [['hops'], ['files'], ['ops']]
 EXPECTED_PROBES = ['roundtrip_json', 'roundtrip_xlsx', 'chain', 'pf_compared', 'init_compared', 'truncated', 'lost_write',
-                   'load_failed_loudly', 'params_compared', 'rewrites_compared']
+                   'load_failed_loudly', 'params_compared', 'rewrites_compared',
+                   'mpc_roundtrip', 'mpc_pf_compared', 'mpc_two_on_one_bus', 'mpc_offline_PQ']
 RULE = ('plan = (stock case incl. raw/dyr and matpower sources, hop sequence over {json, xlsx}, stream or file, optional storage fault); '
         'non-trivial = at least one reload was compared or a fault was injected; distinct = (case, hops, fault kind)')
 ASSUMPTIONS = [
@@ -62,6 +63,8 @@ def plans(seed, tier, count):
         out.append({'property': PROP, 'seed': core.H('fix13', i), 'case': c, 'hops': ['json' if i % 2 else 'xlsx'], 'via': 'file', 'fault': None})
     for j, (ext, files) in enumerate(sorted(REWRITE.items())):
         out.insert(j, {'property': PROP, 'seed': core.H('fix13rw', j), 'kind': 'rewrite', 'ext': ext, 'files': files[:2] + files[:1]})
+    for j, (c, ops, mode) in enumerate(MPC_FIXED):
+        out.insert(j, {'property': PROP, 'seed': core.H('fix13mpc', j), 'kind': 'mpc', 'case': c, 'ops': ops, 'bus_idx': mode, 'order': 'file'})
     i = 0
     while len(out) < count:
         out.append({'stub': True, 'seed': core.H(seed, PROP, i), 'tier': tier})
@@ -77,6 +80,20 @@ def elaborate(stub):
         ext = w.choice(sorted(REWRITE))
         files = [w.choice(REWRITE[ext]) for _ in range(w.choice([2, 3, 4]))]
         return {'property': PROP, 'seed': seed, 'kind': 'rewrite', 'ext': ext, 'files': files}
+    m = stream(seed, 'mpc')
+    if m.random() < 0.15:
+        cs = [c for c in all_cases() if c not in gen.BIG or m.random() < 0.3]
+        ops = []
+        for _ in range(m.choice([0, 1, 1, 2, 3])):
+            kind = m.choice(['off', 'off', 'dup', 'alter', 'alter'])
+            if kind == 'off':
+                ops.append(['off', m.choice(['PQ', 'PQ', 'Shunt', 'Line', 'PV']), round(m.random(), 4)])
+            elif kind == 'dup':
+                ops.append(['dup', m.choice(['PQ', 'PQ', 'Shunt']), round(m.random(), 4), round(m.uniform(0.2, 1.5), 3)])
+            else:
+                ops.append(['alter', m.choice(['PQ.p0', 'PQ.q0', 'PV.p0', 'PV.v0', 'Shunt.b']), round(m.random(), 4), round(m.uniform(0.7, 1.2), 3)])
+        return {'property': PROP, 'seed': seed, 'kind': 'mpc', 'case': m.choice(cs), 'ops': ops,
+                'bus_idx': m.choice(['keep', 'keep', 'str', 'int']), 'order': m.choice(['file', 'file', 'shuffle'])}
     cs = [c for c in all_cases() if c not in gen.BIG or (stub.get('tier') == 'thorough' and r.random() < 0.3)]
     case = r.choice(cs)
     hops = [r.choice(['json', 'xlsx']) for _ in range(r.choice([1, 1, 2, 3]))]
@@ -245,6 +262,121 @@ def run_rewrite(plan, res, v, probes, d):
     return res
 
 
+MPC_MODELS = ('Bus', 'PQ', 'PV', 'Slack', 'Shunt', 'Line', 'Area')
+# (case, operations before the export, bus index typing): several loads / shunts on one bus, devices out of service
+MPC_FIXED = [
+    ('npcc/npcc.xlsx', [], 'keep'),
+    ('ieee14/ieee14.json', [['off', 'PQ', 0.3], ['off', 'Shunt', 0.0]], 'keep'),
+    ('ieee14/ieee14.json', [['dup', 'PQ', 0.0, 0.5], ['dup', 'Shunt', 0.6, 0.8]], 'keep'),
+    ('kundur/kundur_full.xlsx', [['dup', 'PQ', 0.0, 0.02]], 'int'),
+    ('ieee39/ieee39.xlsx', [['off', 'Line', 0.2], ['alter', 'PQ.p0', 0.5, 1.1]], 'int'),
+    ('wscc9/wscc9.xlsx', [['off', 'PV', 0.9], ['alter', 'PV.v0', 0.1, 1.01]], 'str'),
+    ('5bus/pjm5bus.json', [], 'str'),
+]
+
+
+def run_mpc(plan, res, v, probes):
+    """
+    MATPOWER export as a cold restart: the static network of a stock case (seeded bus-index typing and device order,
+    seeded devices taken out of service / doubled on a bus / altered) -> system2mpc -> a new System built by
+    mpc2system from the dict alone -> same power flow at every bus.
+    """
+    import andes
+    from andes.io.matpower import mpc2system, system2mpc
+    from dst import rebuild
+    rng = stream(plan['seed'], 'mpc_build')
+    ss0 = build_system(plan['case'], setup=False)
+    rows = [(m, d) for m, d in rebuild.extract(ss0) if m in MPC_MODELS]
+    other = sorted(m.class_name for m in ss0.models.values() if m.n and m.flags.pflow and m.class_name not in MPC_MODELS
+                   and (m.algebs or m.algebs_ext) and m.group not in ('TimedEvent',))
+    asym = any(abs(float(d.get(k, 0) or 0)) > 0 for m, d in rows if m == 'Line' for k in ('g', 'g1', 'g2', 'b1', 'b2'))
+    res['sig'] = json.dumps(['mpc', plan['case'], plan['ops'], plan['bus_idx']])
+    if other or asym or abs(float(ss0.config.mva) - 100.0) > 0:
+        # devices or branch data the MATPOWER format cannot hold: not a precondition of the property's clause
+        res['precondition_unmet'] = 1
+        probes['mpc_not_representable'] = 1
+        return
+    rows, maps, modes = rebuild.remap(ss0, rows, rng, modes={'ACTopology': plan['bus_idx']})
+    if plan.get('order') == 'shuffle':
+        buses = [r_ for r_ in rows if r_[0] == 'Bus']
+        rest = [r_ for r_ in rows if r_[0] != 'Bus']
+        rng.shuffle(rest)
+        rows = buses + rest
+    for op in plan['ops']:
+        if op[0] == 'off':
+            cand = [d for m, d in rows if m == op[1]]
+            if cand:
+                cand[int(op[2] * len(cand)) % len(cand)]['u'] = 0
+                probes['mpc_offline_' + op[1]] = 1
+        elif op[0] == 'dup':
+            cand = [d for m, d in rows if m == op[1]]
+            if cand:
+                src = cand[int(op[2] * len(cand)) % len(cand)]
+                d2 = dict(src)
+                d2['idx'] = 'dup_%s_%d' % (op[1], len(rows))
+                d2['name'] = d2['idx']
+                for k in ('p0', 'q0', 'g', 'b'):
+                    if k in d2:
+                        d2[k] = float(d2[k]) * op[3]
+                rows.append((op[1], d2))
+                probes['mpc_two_on_one_bus'] = 1
+    ss = rebuild.build(rows)
+    if not ss.setup():
+        raise core.HarnessError('setup failed for the static part of %s' % plan['case'])
+    for op in plan['ops']:
+        if op[0] == 'alter':
+            mname, pn = op[1].split('.')
+            mdl = getattr(ss, mname)
+            if mdl.n:
+                i = int(op[2] * mdl.n) % mdl.n
+                mdl.alter(pn, mdl.idx.v[i], float(getattr(mdl, pn).vin[i]) * op[3])
+                probes['mpc_altered'] = 1
+    with np.errstate(all='ignore'):
+        ok0 = ss.PFlow.run()
+    if not ok0:
+        res['precondition_unmet'] = 1
+        return
+    if ss.PQ.n:
+        # the format holds no per-load voltage range: a load that left its own range (or the default range of the re-import,
+        # 0.8 .. 1.2) is converted to an impedance on one side only -- a limit of the format, not of the export
+        vb = np.array(ss.Bus.v.v)[ss.Bus.idx2uid(ss.PQ.bus.v)]
+        on = np.array(ss.PQ.u.v) > 0
+        inside = (vb >= np.maximum(np.array(ss.PQ.vmin.v), 0.8)) & (vb <= np.minimum(np.array(ss.PQ.vmax.v), 1.2))
+        if np.any(on & ~inside):
+            res['precondition_unmet'] = 1
+            probes['mpc_load_outside_voltage_range'] = 1
+            return
+    try:
+        mpc = system2mpc(ss)
+        s2 = andes.System(default_config=True, no_output=True, autogen_stale=False)
+        mpc2system(mpc, s2)
+        if not s2.setup():
+            raise RuntimeError('setup() of the re-imported system failed')
+    except Exception as e:
+        v.append(V('mpc_roundtrip', 'MATPOWER export / re-import of the static network of %s (bus indices %s) raised %s: %s' %
+                   (plan['case'], plan['bus_idx'], type(e).__name__, str(e)[:160]), what='raises', bus_idx=plan['bus_idx']))
+        return
+    probes['mpc_roundtrip'] = 1
+    if s2.Bus.n != ss.Bus.n or s2.Line.n != ss.Line.n or (s2.PV.n + s2.Slack.n) != (ss.PV.n + ss.Slack.n):
+        v.append(V('mpc_roundtrip', 'device counts differ after re-import: buses %d/%d, lines %d/%d, generators %d/%d' %
+                   (ss.Bus.n, s2.Bus.n, ss.Line.n, s2.Line.n, ss.PV.n + ss.Slack.n, s2.PV.n + s2.Slack.n), what='count'))
+        return
+    with np.errstate(all='ignore'):
+        ok1 = s2.PFlow.run()
+    if not ok1:
+        v.append(V('mpc_roundtrip', 'power flow of the re-imported MATPOWER export does not converge (original does)', what='pf_flag'))
+        return
+    probes['mpc_pf_compared'] = 1
+    dv = float(np.max(np.abs(np.array(ss.Bus.v.v) - np.array(s2.Bus.v.v))))
+    da = float(np.max(np.abs(np.array(ss.Bus.a.v) - np.array(s2.Bus.a.v))))
+    if not (dv <= 1e-8 and da <= 1e-8):
+        k = int(np.argmax(np.abs(np.array(ss.Bus.v.v) - np.array(s2.Bus.v.v))))
+        load0 = float(np.sum(np.array(ss.PQ.u.v) * np.array(ss.PQ.p0.v))) if ss.PQ.n else 0.0
+        load1 = float(np.sum(np.array(s2.PQ.u.v) * np.array(s2.PQ.p0.v))) if s2.PQ.n else 0.0
+        v.append(V('mpc_roundtrip', 'power flow of the re-imported MATPOWER export differs: |dv| %.3g (bus position %d), |da| %.3g; '
+                   'total load in service %.6g -> %.6g; ops %s' % (dv, k, da, load0, load1, plan['ops']), what='pf'))
+
+
 def execute(plan):
     if plan.get('stub'):
         plan = elaborate(plan)
@@ -252,6 +384,16 @@ def execute(plan):
     res = {'plan': plan, 'violations': []}
     v = res['violations']
     probes = {}
+    if plan.get('kind') == 'mpc':
+        run_mpc(plan, res, v, probes)
+        res['probes'] = probes
+        res['faults'] = {}
+        res['nontrivial'] = bool(probes.get('mpc_roundtrip'))
+        res['steps'] = 1
+        dg = core.Digest()
+        dg.add(res['sig'], sorted(core.vclass(x) for x in v), sorted(probes.items()))
+        res['digest'] = dg.hex()
+        return res
     d = scratch_dir('c13-')
     if plan.get('kind') == 'rewrite':
         try:
